@@ -215,14 +215,11 @@ class Tab:
 
     def read(self, name):
         """column read under a name as the documentation defines it (None = no such thing)"""
-        if name == "x":
-            return list(self.X)
-        if name == "y":
-            return list(self.Y)
-        if name == "z":
-            return list(self.Z)
-        if name == "t":
-            return list(self.T)
+        if name in ("x", "y", "z", "t"):
+            c = getattr(self, name.upper())
+            if not all(isinstance(v, float) for v in c):
+                raise Exc()                # a coordinate holding a complex / an object (written by an operator): no expectation downstream
+            return list(c)
         if name == "idx":
             return [float(i) for i in range(self.n)]
         if name in self.cols:
@@ -572,7 +569,7 @@ def expected_(tab, op):
         name, alg = op[1], op[2]
         if name in RESERVED:
             return None
-        cur = list(tab.cols[name]) if name in tab.cols else [0.0] * n
+        cur = tab.read(name) if name in tab.cols else [0.0] * n      # read(): no expectation on a column holding a complex / an object
         if alg[0] == "const":
             c = [fv(alg[1])] * n
         elif alg[0] == "affine":
@@ -1820,6 +1817,8 @@ class P(Prop):
             col = getattr(tab, cn)[lo:hi] + ((oth[cn] if oth else []) if m else [])
             setattr(dt, cn, col)
         for nm in want_names:
+            if m and not isinstance(oth["cols"].get(nm), list):
+                return "second operand of %s: reading its listed feature %r raises %s" % (c[:2], nm, oth["cols"].get(nm))
             dt.cols[nm] = tab.cols[nm][lo:hi] + (oth["cols"][nm] if m else [])
         where = "track derived by %s: " % (c[:3] if c[0] != "plus" else c[:2],)
         if first["names"] != want_names:
